@@ -194,4 +194,25 @@ example : CacheOK (1/100 : Rat) 1 1 exCache := by
     decide +kernel
   · simp [exCache, PT.InfOnly, PKids.InfOnly, PKids.noInf, IKids.empty, IKids.count, ITree.val]
 
+mutual
+theorem PT.fresh_removeAxes (keep : List Nat) (t : PT α) : PT.Fresh (Sch.removeAxes keep t) := by
+  match t with
+  | .node i c ks =>
+    unfold Sch.removeAxes PT.Fresh
+    exact ⟨rfl, PKids.fresh_removeAxes keep ks⟩
+theorem PKids.fresh_removeAxes (keep : List Nat) (ks : PKids α) : PKids.Fresh (Sch.removeAxesK keep ks) := by
+  match ks with
+  | .nil => simp [Sch.removeAxesK, PKids.Fresh]
+  | .cons none r => simp only [Sch.removeAxesK, PKids.Fresh]; exact PKids.fresh_removeAxes keep r
+  | .cons (some t) r =>
+    simp only [Sch.removeAxesK, PKids.Fresh]
+    exact ⟨PT.fresh_removeAxes keep t, PKids.fresh_removeAxes keep r⟩
+end
+
+/-- `remove_axes` resets every cached state (the dropped columns pin the removed coordinates to 0, so every path
+    condition changes): whatever the caches were, the result satisfies the cache invariant -/
+theorem C05_remove_axes (tol : α) (n m : Nat) (keep : List Nat) (t : PT α) (hs : PT.Shaped 2 n m t) :
+    CacheOK tol keep.length m (Sch.removeAxes keep t) :=
+  C05_fresh tol keep.length m _ (C04_remove_axes 2 n m keep t hs) (PT.fresh_removeAxes keep t)
+
 end AV
